@@ -86,6 +86,37 @@ Proof.
 Qed.
 Print Assumptions C09_pinned_refuted.
 
+(* free-running overlap: [Race n q1 q2] = n rounds of two requests of different peers for one
+   server feature running through the whole of AddBinding at the same time (no parking), the
+   bindings granted in a round deleted again.  The model is the sequential composition; which
+   request goes first is irrelevant (same state, same peer-blanked observation), the registry
+   is unchanged afterwards, and one round equals "request; request; delete the winner" in both
+   orders (BindSchedProofs.race_round_sequential, by computation on two registries and six
+   request pairs).  C09_sched_accepted / C09_at_most_one_sched above quantify over histories
+   containing Race as well. *)
+Theorem C09_race_order_irrelevant : forall s n q1 q2,
+  BindSched.step s (BindSched.Race n q1 q2) = BindSched.step s (BindSched.Race n q2 q1).
+Proof. exact BindSchedProofs.race_order_irrelevant. Qed.
+Print Assumptions C09_race_order_irrelevant.
+
+Theorem C09_race_keeps_registry : forall s n q1 q2,
+  BindSched.binds (fst (BindSched.step s (BindSched.Race n q1 q2))) = BindSched.binds s.
+Proof. exact BindSchedProofs.race_keeps_registry. Qed.
+Print Assumptions C09_race_keeps_registry.
+
+(* one round of a race on an unbound feature IS the sequential composition "request 1; request 2;
+   delete pair 1; delete pair 2" (Begin/End of any free thread id), for every state, and
+   therefore the same in both orders *)
+Theorem C09_race_round_sequential : forall s t q1 q2,
+  BindSched.is_parked s t = false -> BindSched.race_ok q1 q2 = true -> BindSched.bound s (BindSched.q_srv q1) = false ->
+  BindSchedProofs.seq_state s t q1 q2 = fst (BindSched.step s (BindSched.Race 1 q1 q2)) /\
+  BindSchedProofs.seq_state s t q1 q2 = BindSchedProofs.seq_state s t q2 q1.
+Proof.
+  intros s t q1 q2 H1 H2 H3. split;
+    [exact (BindSchedProofs.race_round_general s t q1 q2 H1 H2 H3) | exact (BindSchedProofs.race_round_both_orders s t q1 q2 H1 H2 H3)].
+Qed.
+Print Assumptions C09_race_round_sequential.
+
 (* the machine the driver runs (product of the two models, judged by both monitors) *)
 Theorem C09_machine_accepted : forall ops,
   C09MachineSpec.accepted (C09MachineSpec.cjudge C09MachineSpec.cminit (snd (C09Machine.crun C09Machine.cinit ops))) = true.
